@@ -436,7 +436,9 @@ A_RoundTrip(C, fmt) ==
                     !.func = [g \in GeneU |-> TRUE],
                     !.groups = IF fam = "sbml" THEN @ ELSE {},
                     \* subsystems are not among what C10 lists for SBML (Wild = not compared)
-                    !.attr = IF fam = "sbml" THEN [x \in AllIds |-> [C.attr[x] EXCEPT !.subsys = Wild]] ELSE @])
+                    !.attr = IF fam = "sbml" THEN [x \in AllIds |-> [C.attr[x] EXCEPT !.subsys = Wild]] ELSE @,
+                    \* SBML notes are plain text (C10); the structured note tokens 3..5 are judged for the other formats
+                    !.note = IF fam = "sbml" THEN [x \in AllIds |-> IF C.note[x] \in {3, 4, 5} THEN Wild ELSE C.note[x]] ELSE @])
 
 \* expected detached result of reaction arithmetic (kind: "copy" | "add" | "sub" | "mul")
 ArithResult(C, kind, r, q, k) ==
